@@ -84,12 +84,31 @@ Theorem flush_in_list_order : forall v count l1 h l2,
 Proof. exact flush_periods_app. Qed.
 Print Assumptions flush_in_list_order.
 
+(** an input for a variable with a set-input rule never changes an array that is already
+    known; with the order above: what is declared on a longer period is distributed only over
+    the sub-periods for which nothing more specific was declared (the amounts are C16's) *)
+Theorem longer_fills_gaps : forall v n h P a h',
+  v_rule v <> RNone ->
+  holder_set_input v n h P a = Ok h' ->
+  forall q arr, hget h q = Some arr -> hget h' q = Some arr.
+Proof. exact longer_fills_gaps_only. Qed.
+Print Assumptions longer_fills_gaps.
+
 Example flush_order_nonvacuous :
   map fst (sort_periods [((Month, (2018, 1, 1), 10), 1); ((Year, (2018, 1, 1), 1), 2);
                          ((Month, (2018, 1, 1), 2), 3); ((Month, (2018, 3, 1), 1), 4)])
   = [(Month, (2018, 3, 1), 1); (Month, (2018, 1, 1), 2); (Month, (2018, 1, 1), 10); (Year, (2018, 1, 1), 1)]
-  /\ shorter (Month, (2018, 1, 1), 2) (Month, (2018, 1, 1), 10).
-Proof. split; [reflexivity|right; split; [reflexivity|reflexivity]]. Qed.
+  /\ shorter (Month, (2018, 1, 1), 2) (Month, (2018, 1, 1), 10)
+  /\ (* January known, the year fills the eleven other months with (1200 - 100) / 11 *)
+     let v := mkVariable "s" "person" TInt Month RDivide None (CInt 0) [] in
+     match holder_set_input v 1 [((Month, (2018, 1, 1), 1), [CInt 100])] (Year, (2018, 1, 1), 1) [CInt 1200] with
+     | Ok h => hget h (Month, (2018, 1, 1), 1) = Some [CInt 100]
+               /\ hget h (Month, (2018, 2, 1), 1) = Some [CInt 100] /\ List.length h = 12%nat
+     | Err _ => False
+     end.
+Proof.
+  split; [reflexivity|]. split; [right; split; reflexivity|]. vm_compute. repeat split.
+Qed.
 
 (** * 3. Ill-formed descriptions are refused with the situation error *)
 
